@@ -64,10 +64,21 @@ Fixpoint take_n (n : nat) (bs : bytes) : option (bytes * bytes) :=
       end
   end.
 
-(* the same with a length read from the input: checked against the input
-   length first, so that a corrupt length never becomes a huge unary number *)
+(* the same with a length read from the input (recursion on the input, so
+   that a corrupt length never becomes a huge unary number) *)
+Fixpoint take_zl (bs : bytes) (n : Z) {struct bs} : option (bytes * bytes) :=
+  if n =? 0 then Some ([], bs)
+  else match bs with
+       | [] => None
+       | b :: t =>
+           match take_zl t (n - 1) with
+           | Some (a, r) => Some (b :: a, r)
+           | None => None
+           end
+       end.
+
 Definition take_z (n : Z) (bs : bytes) : option (bytes * bytes) :=
-  if (0 <=? n) && (n <=? Z.of_nat (List.length bs)) then take_n (Z.to_nat n) bs else None.
+  if n <? 0 then None else take_zl bs n.
 
 Definition read_u32 (bs : bytes) : option (Z * bytes) :=
   match take_n 4 bs with
